@@ -148,6 +148,52 @@ def run_native(dh, prop, tier, seed, out_dir, budget_s, procs, proc_ms, families
     return results, inconclusive, tool_violations
 
 
+def run_sweep(dh, prop, seed, out_dir, budget_s, procs):
+    """Thorough tier: one short process per (lock site, position) pair with a delay injected at exactly that point in every
+    program run. The pairs are those the property's own workload reaches (listed by a warm-up process)."""
+    os.makedirs(out_dir, exist_ok=True)
+    warm = os.path.join(out_dir, 'sweep_warmup.json')
+    r = subprocess.run([dh, '--profile', prop, '--seed', str(seed * 31 + 7), '--budget-ms', '6000', '--noise', 'none', '--out', warm, '--list-targets'], stdout=subprocess.PIPE, stderr=subprocess.STDOUT, text=True)
+    targets = []
+    for line in r.stdout.splitlines():
+        f = line.split()
+        if len(f) == 4 and f[0] == 'TARGET': targets.append((f[1], int(f[2]), int(f[3])))
+    targets.sort(key=lambda t: -t[2])
+    results, inconclusive = [], []
+    try: results.append(json.load(open(warm)))
+    except Exception: pass
+    if not targets: return results, ['sweep: no targets listed'], []
+    per = max(1500, int(budget_s * 1000 * procs / max(1, len(targets))))
+    per = min(per, 6000)
+    t_end = time.time() + budget_s
+    running, k = {}, 0
+    queue = list(targets)
+    done_targets = 0
+    while True:
+        while len(running) < procs and queue and time.time() < t_end:
+            site, kind, hits = queue.pop(0)
+            out = os.path.join(out_dir, 's%04d.json' % k)
+            cmd = [dh, '--profile', prop, '--seed', str(seed * 7001 + k), '--budget-ms', str(per), '--noise', 'targeted', '--target', '%s:%d' % (site.replace('0x', ''), kind), '--out', out, '--watchdog-s', '60']
+            p = subprocess.Popen(cmd, stdout=subprocess.PIPE, stderr=subprocess.STDOUT, text=True)
+            running[p.pid] = (p, out, time.time(), k)
+            k += 1
+        if not running: break
+        time.sleep(0.05)
+        for pid in list(running):
+            p, out, started, idx = running[pid]
+            rc = p.poll()
+            if rc is None:
+                if time.time() - started > per / 1000.0 + 150:
+                    p.kill(); p.wait(); del running[pid]; inconclusive.append('sweep process %d killed by the watchdog' % idx)
+                continue
+            del running[pid]
+            if rc == 2: log('HARNESS ERROR in sweep process', idx); return None, ['harness error'], []
+            try: results.append(json.load(open(out))); done_targets += 1
+            except Exception as e: inconclusive.append('sweep process %d: no output (%s)' % (idx, e))
+    log('sweep: %d of %d (site, position) pairs perturbed, %d ms each' % (done_targets, len(targets), per))
+    return results, inconclusive, []
+
+
 def merge(results):
     m = dict(evaluations=0, completed=0, stuck=0, inconclusive=0, nontrivial_runs=0, ordered_pairs_checked=0, pool_peak=0, hashes=set(), maps={}, violations=[], samples=[],
              notes=[], points={})
@@ -266,6 +312,8 @@ def run_check(prop, tier, seed):
     if want('native'):
         fams = FAMILIES_THOROUGH if tier == 'thorough' else FAMILIES
         jobs.append(('native', lambda: run_native(bins['native'], prop, tier, seed, out_dir, b['native_s'], b['native_procs'], b['proc_ms'], families=fams)))
+    if want('native') and tier == 'thorough':
+        jobs.append(('sweep', lambda: run_sweep(bins['native'], prop, seed, out_dir, b['native_s'] * 0.5, 4)))
     if use_miri:
         jobs.append(('miri', lambda: sanit.run_miri(prop, seed, out_dir, b['miri_s'], b['miri_procs'], log)))
     if use_asan:
